@@ -580,7 +580,31 @@ class Builder:
                 asg.end_lineno = getattr(s, 'end_lineno', None)
                 self._expr(el, frame)
                 self._emit('stmt', asg, frame)
-                self._body(s.body, frame)
+                body = s.body
+                tn = s.target.id
+                if isinstance(el, (ast.Name, ast.Attribute)) and any(
+                        isinstance(x, ast.Call) and
+                        isinstance(x.func, ast.Name) and x.func.id == tn
+                        for st in s.body for x in ast.walk(st)) and not any(
+                        isinstance(x, ast.Name) and x.id == tn and
+                        isinstance(x.ctx, (ast.Store, ast.Del))
+                        for st in s.body for x in ast.walk(st)):
+                    # `for f in (self.a.x, self.a.y): f(id)`: the call is a
+                    # call of what the element names in this copy of the body
+                    import copy as _copy
+
+                    class _SubL(ast.NodeTransformer):
+                        def visit_Name(self, node, tn=tn, el=el):
+                            if isinstance(node.ctx, ast.Load) and \
+                                    node.id == tn:
+                                return ast.copy_location(
+                                    _copy.deepcopy(el), node)
+                            return node
+                    body = [_SubL().visit(_copy.deepcopy(st))
+                            for st in s.body]
+                    for st in body:
+                        ast.fix_missing_locations(st)
+                self._body(body, frame)
         elif isinstance(s, ast.For) and \
                 self._table_iter(s, frame) is not None:
             # `for cls, handler in _TABLE:` over a module-level display of
